@@ -308,7 +308,11 @@ FirstDefect(levels, l) ==
   ELSE LET d == S!LevelDefect(levels, OFmt, ODims, l) IN IF d # "" THEN d ELSE FirstDefect(levels, l + 1)
 
 \* C02: canonical, self-consistent
-Canonical(sn) == IF sn.why # "" THEN "unreadable-" \o sn.why ELSE FirstDefect(sn.levels, 1)
+Canonical(sn) == IF sn.why # "" THEN "unreadable-" \o sn.why
+                 ELSE IF Len(sn.levels) # OOrder THEN "level-count"
+                 ELSE LET d == FirstDefect(sn.levels, 1) IN
+                      IF d # "" THEN d
+                      ELSE IF Len(sn.vals) # S!NPos(sn.levels, OFmt, ODims, OOrder) THEN "vals-length" ELSE ""
 
 Coords == TA!TargetCoords(C.asg, Dims)
 
